@@ -40,6 +40,11 @@ def _node_safe(prog, kids, rho):
     if tag in ('x', 'c', 's'):
         return True
     if tag == 'b':
+        if prog[1] in ('L', 'L2'):
+            # log(e^a + e^b): both exponentials stay in the open right half plane while |Im| < pi/2
+            f = 1.0 if prog[1] == 'L' else math.log(2.0)
+            (ra, oka), (rb, okb) = _majorant(kids[0], rho), _majorant(kids[1], rho)
+            return oka and okb and f * ra < PI / 2 and f * rb < PI / 2
         if prog[1] != '/':
             return True
         den = kids[1]
@@ -100,8 +105,8 @@ def _partials(prog, kids):
     if tag == 'b':
         a0, b0 = kids[0][0], kids[1][0]
         op = prog[1]
-        if op in '+-':
-            return [1.0, 1.0]
+        if op in ('+', '-', 'L', 'L2'):
+            return [1.0, 1.0]       # (logaddexp: the partial derivatives are the two softmax weights, <= 1)
         if op == '*':
             return [float(abs(b0)), float(abs(a0))]
         return [float(1 / abs(b0)), float(abs(a0) / abs(b0) ** 2)]
